@@ -6,10 +6,14 @@
    the language's semantics gives to the translated tree, defined exactly when it is.  Hence an expression read back at
    a solution through the builder (BuilderSolution::eval) is the language's value of what was compiled, and a handle
    resolves to the value of the variable of that name.
+   Proved, for every sequence of public ModelBuilder calls (add_var, with, with_all, minimize, maximize, satisfy in any
+   order): the model into_model returns is determined by the declared variables in order, the constraints in order
+   (however grouped) and the last objective call; it exists exactly when no name is declared twice; handles keep naming
+   their variable; every declared variable is marked used.
    The agreement of the entry points themselves (builder / text / staged pipes / one-shot solver: same linear model,
    same verdict, same optimum) is evaluated on the implementation by checks/c16.py (partial: see C16_full_statement). *)
 From Coq Require Import QArith Qreals Reals ZArith Bool List String.
-From Rooc Require Import Base.XQ Model.Exp Model.Sem Model.Builder Proof.BuilderSound.
+From Rooc Require Import Base.XQ Model.Exp Model.Sem Model.Bounds Model.Linearize Model.Builder Model.BuilderOps Proof.BuilderSound Proof.BuilderOpsFacts.
 Import ListNotations.
 Local Close Scope Q_scope.
 
@@ -22,6 +26,32 @@ Theorem C16_handle_is_name :
   forall (V : Type) (names : list string) (sol : string -> option V) h n,
     nth_error names h = Some n -> handle_value names sol h = sol n.
 Proof. intros V names sol h n. exact (handle_is_name names sol h n). Qed.
+
+(* ---- ModelBuilder as a state machine: the calls may come in any order *)
+Theorem C16_call_order_irrelevant :
+  forall (ops1 ops2 : list bop) (s1 s2 : bstate),
+    brun b_init ops1 = Some s1 -> brun b_init ops2 = Some s2 ->
+    vars_of_ops ops1 = vars_of_ops ops2 -> cons_of_ops ops1 = cons_of_ops ops2 -> last_obj ops1 None = last_obj ops2 None ->
+    into_model s1 = into_model s2.
+Proof. exact call_order_irrelevant. Qed.
+Theorem C16_with_all_is_a_sequence_of_with : forall (s : bstate) (cs : list bcon), brun s [OWithAll cs] = brun s (map OWith cs).
+Proof. exact with_all_is_withs. Qed.
+Theorem C16_builds_iff_names_distinct :
+  forall ops : list bop, (exists s', brun b_init ops = Some s') <-> NoDup (map fst (vars_of_ops ops)).
+Proof. intros ops. exact (brun_succeeds_iff_names_distinct ops b_init (NoDup_nil _)). Qed.
+Theorem C16_handle_stable :
+  forall (ops1 ops2 : list bop) (s1 s2 : bstate) (n : string) (t : vtype),
+    brun b_init ops1 = Some s1 -> brun s1 (OVar n t :: ops2) = Some s2 ->
+    name_of (b_names s2) (List.length (b_names s1)) = n.
+Proof. exact handle_stable. Qed.
+Theorem C16_every_declared_variable_marked_used :
+  forall (s : bstate) (n : string) (d : dvar), In (n, d) (m_domain (into_model s)) -> dv_used d = true.
+Proof. exact into_model_marks_all_used. Qed.
+Example C16_order_instance :   (* objective first / last, constraints one by one / together: the same model *)
+  let c1 := mkBC "a"%string (EVar 0) Le (ENum (Fin 3%Q)) false in let c2 := mkBC ""%string (EVar 1) Eq (ENum (Fin 1%Q)) true in
+  option_map into_model (brun b_init [OVar "x"%string TBoolean; OVar "y"%string TBoolean; OMax (EVar 0); OWith c1; OWith c2])
+  = option_map into_model (brun b_init [OVar "x"%string TBoolean; OVar "y"%string TBoolean; OSat; OWithAll [c1; c2]; OMax (EVar 0)]).
+Proof. vm_compute. reflexivity. Qed.
 
 (* non-vacuity: x_0 - 2 * (x_1 and not x_0) at x_0 = 3, x_1 = 1 is defined on both sides and equals 3 *)
 Example C16_instance :
@@ -39,4 +69,6 @@ Definition C16_full_statement (src linear answer : Type)
             solve_builder m = solve_oneshot m /\ solve_pipes m = solve_oneshot m.
 
 Print Assumptions C16_translation_commutes_with_evaluation_partial.
+Print Assumptions C16_call_order_irrelevant.
+Print Assumptions C16_builds_iff_names_distinct.
 Print Assumptions C16_handle_is_name.
